@@ -28,6 +28,13 @@ import (
 //	derive <xprv> <path> | pubderive <xpub> <path> | sign <xprv> <msg> | verify <xpub> <msg> <sig>
 //	ks <auth> <auth2>      (encrypt with auth, decrypt with auth2; light scrypt parameters)
 //
+// Derivation with a REUSED path value: `rderive <xprv> <path> <reuse|fresh|scribble>` => xpub.Derive(path)
+// — the harness keeps ONE [][]byte path value per case; `reuse` writes the given selectors IN PLACE
+// into that value's existing backing arrays (an address-index loop doing PutUint32(path[4], i)) and
+// derives with it, `fresh` derives with a newly allocated path, `scribble` derives with the reused
+// value and overwrites its bytes afterwards.  Oracle: the result equals xprv.Derive(deep copy).XPub()
+// and a signature of the derived xprv verifies under it; the model derives from the path CONTENTS.
+//
 // Concurrent signing: `csign <goroutines> <gomaxprocs> <seed>` => ok   — the batch (keys derived from
 // the seed, messages of 32 bytes … 64 KiB) is signed by that many goroutines at once; every
 // signature must verify under the derived xpub AND equal the signature the same (key, message)
@@ -189,6 +196,68 @@ func c28impl(w []string) (out string) {
 		return "ok"
 	}
 	return "bad-op"
+}
+
+// ---- derivation with a reused, in-place mutated path value ---------------------------------
+
+var c28pathReg [][]byte // the caller-owned path value of the current case
+
+func c28rderive(c *Ctx, w []string) (out string, fail string) {
+	defer func() {
+		if r := recover(); r != nil {
+			out, fail = "panic", fmt.Sprint("Derive panicked: ", r)
+		}
+	}()
+	xb, ok1 := c28unh(w[1])
+	path, ok2 := c28path(w[2])
+	xprv, ok3 := c28xprv(xb)
+	if !ok1 || !ok2 || !ok3 {
+		return "bad-op", ""
+	}
+	deep := func() [][]byte {
+		cp := make([][]byte, len(path))
+		for i := range path {
+			cp[i] = append([]byte{}, path[i]...)
+		}
+		return cp
+	}
+	var arg [][]byte
+	switch w[3] {
+	case "fresh":
+		arg = deep()
+	case "reuse", "scribble":
+		same := len(c28pathReg) == len(path)
+		for i := 0; same && i < len(path); i++ {
+			same = len(c28pathReg[i]) == len(path[i])
+		}
+		if !same {
+			c28pathReg = deep() // a new value of the new shape, reused from now on
+		} else {
+			for i := range path {
+				copy(c28pathReg[i], path[i]) // in place: same slice headers, same backing arrays
+			}
+		}
+		arg = c28pathReg
+	default:
+		return "bad-op", ""
+	}
+	xpub := xprv.XPub()
+	got := xpub.Derive(arg)
+	refPrv := xprv.Derive(deep())
+	ref := refPrv.XPub()
+	if got != ref {
+		fail = fmt.Sprintf("xpub.Derive(path) = %x… but xprv.Derive(path).XPub() = %x… (path value %s)", got[:8], ref[:8], w[3])
+	} else if msg := []byte("rderive"); !got.Verify(msg, refPrv.Sign(msg)) {
+		fail = "signature of the derived xprv does not verify under the derived xpub"
+	}
+	if w[3] == "scribble" {
+		for i := range c28pathReg {
+			for j := range c28pathReg[i] {
+				c28pathReg[i][j] ^= 0xa5
+			}
+		}
+	}
+	return c28h(got[:]), fail
 }
 
 // ---- concurrent signing ------------------------------------------------------------------
@@ -455,6 +524,23 @@ func c28hsmOp(c *Ctx, w []string) (out string, fail string) {
 }
 
 func c28op(c *Ctx, line string) string {
+	if f := strings.Fields(line); len(f) >= 4 && f[0] == "rderive" {
+		out, fail := c28rderive(c, f)
+		if out == "bad-op" {
+			return out
+		}
+		c.Op(line, out)
+		res := "value"
+		if out == "panic" {
+			res = out
+		}
+		c.Count("rderive/" + f[3] + "/" + res)
+		c.Distinct(line)
+		if fail != "" {
+			c.Fail("derive-reused-path:"+strings.Join(f[:4], " "), fail)
+		}
+		return out
+	}
 	if f := strings.Fields(line); len(f) >= 4 && f[0] == "csign" {
 		out, fail := c28csign(c, f)
 		if out == "bad-op" {
@@ -485,6 +571,7 @@ func c28op(c *Ctx, line string) string {
 		if w[0] == "reset" {
 			// a case boundary: the key store (temp dir + HSM object) is created by the first h-op
 			c28hsmClose()
+			c28pathReg = nil
 			c28nextLight = kind != "hsm-lightscrypt"
 			c.Op(line, "ok")
 			return "ok"
@@ -750,6 +837,47 @@ func c28keystore(c *Ctx, hsm bool) {
 	c28op(c, fmt.Sprintf("derive %s %s #kind=hsm", c28h(xprv[:]), c28pathStr(path)))
 }
 
+// an address-index loop and friends: Derive calls on one or two roots that reuse ONE path value whose
+// selector bytes are rewritten in place between the calls
+func c28reusedPaths(c *Ctx, steps int) {
+	c28op(c, "reset #kind=reused-path")
+	roots := []chainkd.XPrv{chainkd.RootXPrv(c28bytes(c, 32))}
+	if c.Rng.Intn(2) == 0 {
+		roots = append(roots, chainkd.RootXPrv(c28bytes(c, 32)))
+	}
+	depth := 1 + c.Rng.Intn(5)
+	path := make([][]byte, depth)
+	for i := range path {
+		path[i] = make([]byte, []int{1, 2, 4, 4, 8}[c.Rng.Intn(5)])
+		c.Rng.Read(path[i])
+	}
+	for s := 0; s < steps; s++ {
+		// rewrite one selector (mostly the last: the index), sometimes several, sometimes none
+		switch r := c.Rng.Intn(10); {
+		case r < 5:
+			last := path[depth-1]
+			last[len(last)-1]++ // PutUint32(path[last], i+1)
+		case r < 7:
+			c.Rng.Read(path[c.Rng.Intn(depth)])
+		case r < 8:
+			for i := range path {
+				c.Rng.Read(path[i])
+			}
+		case r < 9:
+			path[0][0] ^= 1 // the first selector: nothing of the previous derivation can be reused
+		}
+		mode := "reuse"
+		switch c.Rng.Intn(8) {
+		case 0:
+			mode = "fresh"
+		case 1:
+			mode = "scribble"
+		}
+		root := roots[c.Rng.Intn(len(roots))]
+		c28op(c, fmt.Sprintf("rderive %s %s %s #kind=reused-path", c28h(root[:]), c28pathStr(path), mode))
+	}
+}
+
 // a random history over 3 slots and 3 passwords; `probe` re-checks every (slot, password) pair
 func c28history(c *Ctx, steps int, kind string) {
 	c28op(c, "reset #kind="+kind)
@@ -809,7 +937,7 @@ func c28history(c *Ctx, steps int, kind string) {
 
 func runC28(c *Ctx) {
 	defer c28hsmClose()
-	c.Rule = "random and structured seeds (0..64 bytes), non-hardened paths of depth 0..8 (a few of depth 64) with selectors of 0..72 bytes, messages of 0..100 bytes: root key, xpub, private-side derivation, public-side derivation (must agree), single hardened / non-hardened steps, signature, verification under the own key (true), another key, another message, a tampered or truncated signature (false); key file with right / wrong password and tampered ciphertext; HSM on disk. Concurrent signing batches (more goroutines than processors, GOMAXPROCS 1 / 2 / default; messages 32 bytes .. 64 KiB, 4 derived keys; every signature verifies and equals the sequential one; recover + watchdog). Key-store histories: one running HSM per case over a temp directory, 30-60 random operations (create / sign / check-password / reset-password incl. old and new password right after it / delete / new HSM object / probe of all 9 slot-password pairs) over 3 aliases and 3 passwords, compared with the reference model and with a new HSM object over the same directory. Precondition-violating keys (scalar overflow, invalid xpub point) are run for the panic branches (differential only). A case is distinct by its op line."
+	c.Rule = "random and structured seeds (0..64 bytes), non-hardened paths of depth 0..8 (a few of depth 64) with selectors of 0..72 bytes, messages of 0..100 bytes: root key, xpub, private-side derivation, public-side derivation (must agree), single hardened / non-hardened steps, signature, verification under the own key (true), another key, another message, a tampered or truncated signature (false); key file with right / wrong password and tampered ciphertext; HSM on disk. Derivation sequences on one or two roots that reuse ONE path value whose selectors are rewritten in place between calls (index loop, random selector, all, first; fresh / scribbled-after variants; xpub.Derive must equal xprv.Derive(deep copy).XPub()). Concurrent signing batches (more goroutines than processors, GOMAXPROCS 1 / 2 / default; messages 32 bytes .. 64 KiB, 4 derived keys; every signature verifies and equals the sequential one; recover + watchdog). Key-store histories: one running HSM per case over a temp directory, 30-60 random operations (create / sign / check-password / reset-password incl. old and new password right after it / delete / new HSM object / probe of all 9 slot-password pairs) over 3 aliases and 3 passwords, compared with the reference model and with a new HSM object over the same directory. Precondition-violating keys (scalar overflow, invalid xpub point) are run for the panic branches (differential only). A case is distinct by its op line."
 	if c.Replay != "" {
 		for _, l := range c.ReplayLines() {
 			c28op(c, l)
@@ -818,6 +946,10 @@ func runC28(c *Ctx) {
 	}
 	for _, l := range c.CorpusLines() {
 		c28op(c, l)
+	}
+	// derivation with one reused, in-place rewritten path value
+	for i := 0; i < 3+c.N/40; i++ {
+		c28reusedPaths(c, 6+c.Rng.Intn(10))
 	}
 	// concurrent signing: more goroutines than processors, also with GOMAXPROCS 1 and 2
 	c28op(c, "reset #kind=stateless")
